@@ -329,6 +329,7 @@ void vh_run_case(Ctx &ctx)
     so.nlaGuess = rng.chance(0.5);
     so.nlaDense = rng.chance(0.4);
     so.nlaSystems = rng.chance(0.35) ? 2 : 1;
+    so.nlaInterleave = so.nlaSystems == 2 && rng.chance(0.4);
     so.compoundUnits = rng.chance(0.3);
     SemModel m = generateSemModel(rng, so);
     std::string wantType = m.voi >= 0 ? (m.nla.empty() ? "ode" : "dae") : (m.nla.empty() ? "algebraic" : "nla");
